@@ -123,6 +123,9 @@ def net_term(it, d, man_base, elems_name=None, elems_only=False):
     return "(mkNet\n  " + "\n  ".join(parts) + ")"
 
 
+PICKLE_MAX = None   # set by the harness: largest network (elements + maneuvers) for which pickle_bad is evaluated (it is quadratic)
+
+
 def map_file(modname, parsed, cached, suffix=""):
     """The generated per-map file: both networks, the failing (uid, rule) lists printed for the harness,
     the equivalence goal, and the reflection theorems instantiated."""
@@ -148,18 +151,20 @@ def map_file(modname, parsed, cached, suffix=""):
     tc = net_term(it, cached, man_base, elems_name=cname)
     if len(it.ids) + 2 >= man_base:
         raise ValueError("uid space overflow")
+    size = len(parsed["elems"]) + len(parsed["mans"])
+    pickle_expr = f"pickle_bad parsed{S}" if PICKLE_MAX is None or size <= PICKLE_MAX else "[3333333333%positive]"
     text = f"""(* ---- {modname} *)
 {pre}Definition parsed{S} : net := {tp}.
 Definition cached{S} : net := {tc}.
 Definition lbad{S} := Eval vm_compute in links_bad parsed{S}.
 Definition hbad{S} := Eval vm_compute in hierarchy_bad parsed{S}.
 Definition equiv{S} := Eval vm_compute in net_equiv parsed{S} cached{S}.
-Definition pbad{S} := Eval vm_compute in pickle_bad parsed{S}.
+Definition pbad{S} := Eval vm_compute in {pickle_expr}.
 Print lbad{S}. Print hbad{S}. Print equiv{S}. Print pbad{S}.
 (* the pickle placeholder protocol restores every reference of this network (reconnect_inverse) *)
 Theorem pickle_instance{S} : pbad{S} = [] ->
   setstate parsed{S} (index (elems parsed{S})) (map getstate (elems parsed{S})) = Some (map direct (elems parsed{S})).
-Proof. intros H. apply reconnect_inverse. apply pickle_bad_nil. exact H. Qed.
+Proof. intros H. apply reconnect_inverse. apply pickle_bad_nil. vm_cast_no_check H. Qed.
 (* reflection: every element not named in the printed lists satisfies every linkage / hierarchy rule *)
 Theorem links_instance{S} : ReciprocalExcept parsed{S} lbad{S}.
 Proof. apply links_bad_sound. vm_cast_no_check (eq_refl lbad{S}). Qed.
